@@ -116,7 +116,7 @@ def _handler(fs, method):
         def flush(): pass
     MIR.sys = type('S', (), {'stdout': Out})
     MIR.traceback = type('TB', (), {'print_exc': staticmethod(lambda: None)})
-    h = MIR.DigitalRFMirrorHandler.__new__(MIR.DigitalRFMirrorHandler)
+    h = chload.new_obj(MIR.DigitalRFMirrorHandler)
     h.src = '/s'; h.dest = '/d'; h.verbose = False
     if method == 0: h.mirror_fun = sh.copy2
     elif method == 1: h.mirror_fun = sh.move
